@@ -18,27 +18,40 @@ NOT_APPLICABLE = {}
 
 # entries written by the property builders live in design_notes/CXX.md (python block under "MANIFEST entry");
 # a property is claimed only once the maintainer has reviewed it and listed it in ACCEPTED
-ACCEPTED = []
+ACCEPTED = ["C01", "C03", "C04", "C05", "C06", "C07", "C10", "C11", "C12", "C13", "C14", "C15", "C16", "C17", "C18", "C19", "C20"]
 
 
 def _load_notes():
-    import ast, re
+    import ast
     from pathlib import Path
     d = Path(__file__).resolve().parent.parent / "design_notes"
     for pid in ACCEPTED:
         txt = (d / (pid + ".md")).read_text()
-        m = re.search(r"MANIFEST[^\n]*\n(?:.*\n)*?```(?:python)?\n(.*?)```", txt, re.S)
-        if not m:
+        i = txt.find("MANIFEST")
+        j = txt.find('"text"', i)
+        if i < 0 or j < 0:
             raise SystemExit("no MANIFEST block in design_notes/%s.md" % pid)
-        code = m.group(1).strip()
-        code = re.sub(r"^[A-Za-z_]+\s*=\s*", "", code)
-        if not code.startswith("{"):
-            code = "{" + code + "}"
-        val = ast.literal_eval(code.rstrip(",\n ") if code.endswith("}") else code)
-        if pid in val:
-            val = val[pid]
+        k = txt.rfind("{", 0, j)
+        depth, n, instr, q = 0, k, False, ""
+        while n < len(txt):
+            c = txt[n]
+            if instr:
+                if c == "\\":
+                    n += 1
+                elif c == q:
+                    instr = False
+            elif c in "\"'":
+                instr, q = True, c
+            elif c == "{":
+                depth += 1
+            elif c == "}":
+                depth -= 1
+                if depth == 0:
+                    break
+            n += 1
+        val = ast.literal_eval(txt[k:n + 1])
         assert set(("text", "note", "technique")) <= set(val), (pid, val.keys())
-        CHECKS[pid] = val
+        CHECKS[pid] = {x: val[x] for x in ("text", "note", "technique")}
 
 
 _load_notes()
